@@ -4,6 +4,7 @@
 SPECIFICATION Spec
 CONSTANTS FullUpTo = 64  EmitC18 = TRUE  EmitC19 = FALSE  OverflowChecks = FALSE  DepthGuard = FALSE
   Sizes = {2, 4, 8, 16}  MaxOrdered = 4  FileChunks = 4
+  ShapeDepths = {}  ShapeIdxAlphabet = {}  ShapeMaxIdx = 0  ShapeLenAlphabet = {}  ShapeMaxVecs = 0
   Chunks <- ChunksImpl  CasesOf <- CasesOfImpl
 INVARIANT Design Emit
 CHECK_DEADLOCK FALSE
